@@ -47,10 +47,7 @@ Theorem c24_partial : forall poolsize cands nflush sch,
   quiescent s = true ->
   (forall x, count_occ Nat.eq_dec (emitted (out s)) x = count_occ Nat.eq_dec cands x) /\
   nil_count (out s) = 1.
-Proof.
-  exact (fun p c n sch H Hq => conj (candidates_exactly_once p c n sch H Hq)
-                                    (end_exactly_once p c n sch H Hq)).
-Qed.
+Proof. exact partial_all_schedules. Qed.
 Print Assumptions c24_partial.
 
 (* the full statement fails with a pool: the flush has taken the pooled
@@ -59,10 +56,7 @@ Theorem c24_full_refuted :
   exists poolsize cands nflush sch,
     let s := run (init poolsize cands nflush) sch in
     quiescent s = true /\ nil_last (out s) = false.
-Proof.
-  exists 1, [1], 1, [0; 1; 0; 0; 0; 1].
-  exact (conj (proj1 order_refuted) (proj2 (proj2 order_refuted))).
-Qed.
+Proof. exact full_refuted. Qed.
 Print Assumptions c24_full_refuted.
 
 (* without a pool the full statement holds on every schedule: the handler
